@@ -155,6 +155,31 @@ def _keys(v):
     return []
 
 
+def merge_shapes(a, b):
+    """one shape for all elements of a homogeneous collection: union of the keyed fields (undeclared keys differ
+    from element to element)"""
+    if isinstance(a, dict) and isinstance(b, dict):
+        if "k" in a and "k" in b and a["k"] == b["k"]:
+            names = [n for n, _ in a["fields"]]
+            fb = dict((n, f) for n, f in b["fields"])
+            fields = [[n, merge_shapes(f, fb[n]) if n in fb else f] for n, f in a["fields"]]
+            fields += [[n, f] for n, f in b["fields"] if n not in names]
+            return {"k": a["k"], "fields": fields}
+        if "c" in a and "c" in b and a["c"] == b["c"]:
+            return {"c": a["c"], "item": merge_shapes(a["item"], b["item"])}
+        if "w" in a and "w" in b and a["w"] == b["w"]:
+            return {"w": a["w"], "inner": merge_shapes(a["inner"], b["inner"])}
+    return a
+
+
+def _item_shape(d, v, op):
+    els = _elems(v) or [None]
+    sh = shape_for(d, els[0], op)
+    for e in els[1:]:
+        sh = merge_shapes(sh, shape_for(d, e, op))
+    return sh
+
+
 def shape_for(d, v, op=None):
     """Shape (JSON) of declaration d for the concrete value v (extras, positional lengths and the matching
     option of a multi-field wrapper depend on the value; `<wrapper>.serialize` delegates to a fixed option)"""
@@ -166,14 +191,14 @@ def shape_for(d, v, op=None):
     first = lambda: (_elems(v) or [None])[0]
     if k in ("seqAny", "seqOf"):
         kind = "deque" if d.get("seq") == "deque" else "array"
-        return {"c": kind, "item": "untyped" if k == "seqAny" else shape_for(d["item"], first(), op)}
+        return {"c": kind, "item": "untyped" if k == "seqAny" else _item_shape(d["item"], v, op)}
     if k in ("setAny", "setOf"):
         return {"c": "immSet" if d.get("imm") else "set",
-                "item": "untyped" if k == "setAny" else shape_for(d["item"], first(), op)}
+                "item": "untyped" if k == "setAny" else _item_shape(d["item"], v, op)}
     if k == "tupleOf":
-        return {"c": "tuple", "item": shape_for(d["item"], first(), op)}
+        return {"c": "tuple", "item": _item_shape(d["item"], v, op)}
     if k in ("mapAny", "mapOf"):
-        return {"c": "map", "item": "untyped" if k == "mapAny" else shape_for(d["val"], first(), op)}
+        return {"c": "map", "item": "untyped" if k == "mapAny" else _item_shape(d["val"], v, op)}
     if k in ("seqPos", "tuplePos"):
         kind = "tuplePos" if k == "tuplePos" else "dequePos" if d.get("seq") == "deque" else "arrayPos"
         vs = _elems(v) if not isinstance(v, dict) else []
@@ -222,7 +247,12 @@ def prune_extras(shape, snk):
         return {"w": shape["w"], "inner": prune_extras(shape["inner"], snk)}
     if "c" in shape:
         el = _elems(snk)
-        return {"c": shape["c"], "item": prune_extras(shape["item"], el[0]) if el else shape["item"]}
+        if not el:
+            return shape
+        item = prune_extras(shape["item"], el[0])
+        for e in el[1:]:
+            item = merge_shapes(item, prune_extras(shape["item"], e))
+        return {"c": shape["c"], "item": item}
     if "k" in shape:
         if isinstance(snk, Structure):
             kept = set(snk.__dict__)
@@ -728,6 +758,8 @@ def _norm_key(k):
         return str(bool(k))
     if isinstance(k, dict) and "f" in k and k["f"][1] == 1 and k["f"][0] in (0, 1):
         return str(bool(k["f"][0]))
+    if isinstance(k, dict) and "e" in k:
+        return str(k["e"][1])          # an Enum key field turns the member's name into the member
     return k if isinstance(k, str) else json.dumps(k, sort_keys=True, default=str)
 
 
@@ -957,6 +989,20 @@ def directed_cases():
         out.append({"suite": "alias", "op": op, "cls": multi, "kw": kw})
     for how in ("Omit", "Pick", "Extend", "Partial", "AllFieldsRequired"):
         out.append({"suite": "alias", "op": "derive", "cls": multi, "how": how, "names": ["a", "b"]})
+    # empty containers (an `if value:` style short cut would keep or hand out exactly these)
+    emp = _cls("Emp", [["a", ARR_INT], ["u", {"k": "seqAny"}], ["q", {"k": "seqAny", "seq": "deque"}], ["m", {"k": "mapAny"}],
+                       ["s", {"k": "setOf", "item": INT}], ["t", {"k": "mapOf", "key": STR, "val": INT}],
+                       ["b", {"k": "seqOf", "item": ARR_INT}]])
+    ekw = [["a", {"l": []}], ["u", {"l": []}], ["q", {"q": []}], ["m", {"m": []}], ["s", {"s": []}], ["t", {"m": []}],
+           ["b", {"l": [{"l": []}]}]]
+    for op in ("construct", "serialize", "fastSerialize"):
+        out.append({"suite": "alias", "op": op, "cls": emp, "kw": ekw})
+    out.append({"suite": "alias", "op": "deserialize", "cls": emp,
+                "doc": {"m": [["a", {"l": []}], ["u", {"l": []}], ["q", {"l": []}], ["m", {"m": []}], ["s", {"l": []}],
+                              ["t", {"m": []}], ["b", {"l": [{"l": []}]}]]}})
+    for nm, v in ekw:
+        out.append({"suite": "alias", "op": "setattr", "cls": emp, "kw": ekw, "field": nm, "value": v})
+        out.append({"suite": "alias", "op": "fieldSerialize", "cls": emp, "kw": ekw, "field": nm})
     # an ImmutableStructure: everything goes in and out through deep copies (oracle only)
     imm = dict(_cls("Imm", [["a", ARR_INT], ["b", {"k": "seqOf", "item": ARR_INT}], ["u", {"k": "seqAny"}],
                             ["m", {"k": "mapAny"}], ["s", {"k": "seqOf", "item": STR}]]), immutable=True)
